@@ -6,9 +6,9 @@ namespace Hctl.C19
 open Hctl Hctl.Convert
 
 /-- the decision tree built by `explode_function` selects the fresh constant named by the argument values -/
-theorem explode_semantics (env : Nat → Bool) (κ : List Char → List Bool → Bool) :
+theorem explode_semantics (taken : List (List Char)) (env : Nat → Bool) (κ : List Char → List Bool → Bool) :
     ∀ (as : List Fn) (pre : List Char),
-      eval env κ (explode as pre) = κ (pre ++ bitsOf (evalList env κ as)) [] := by
+      eval env κ (explode taken as pre) = κ (fresh taken (pre ++ bitsOf (evalList env κ as))) [] := by
   intro as
   induction as with
   | nil => intro pre; simp [explode, eval, evalList, bitsOf]
@@ -20,25 +20,26 @@ theorem explode_semantics (env : Nat → Bool) (κ : List Char → List Bool →
 mutual
 /-- MAIN (semantics): under any valuation `κ0` of the fresh constants, the flattened function computes what the
 original computes when every uninterpreted symbol `f` is instantiated by `f(b₁…bₙ) := κ0 "f_b₁…bₙ"`. -/
-theorem flatten_semantics (env : Nat → Bool) (κ0 : List Char → Bool) :
-    ∀ f : Fn, eval env (constsOnly κ0) (flatten f) = eval env (induced κ0) f
+theorem flatten_semantics (taken : List (List Char)) (env : Nat → Bool) (κ0 : List Char → Bool) :
+    ∀ f : Fn, eval env (constsOnly κ0) (flatten taken f) = eval env (induced taken κ0) f
   | .const b => by simp [flatten, eval]
   | .var i => by simp [flatten, eval]
-  | .not f => by simp [flatten, eval, flatten_semantics env κ0 f]
-  | .bin o l r => by simp [flatten, eval, flatten_semantics env κ0 l, flatten_semantics env κ0 r]
+  | .not f => by simp [flatten, eval, flatten_semantics taken env κ0 f]
+  | .bin o l r => by simp [flatten, eval, flatten_semantics taken env κ0 l, flatten_semantics taken env κ0 r]
   | .param name args => by
-    simp only [flatten, eval, explode_semantics, flattenList_semantics env κ0 args]
+    simp only [flatten, eval, explode_semantics, flattenList_semantics taken env κ0 args]
     simp [constsOnly, induced, List.append_assoc]
-theorem flattenList_semantics (env : Nat → Bool) (κ0 : List Char → Bool) :
-    ∀ fs : List Fn, evalList env (constsOnly κ0) (flattenList fs) = evalList env (induced κ0) fs
+theorem flattenList_semantics (taken : List (List Char)) (env : Nat → Bool) (κ0 : List Char → Bool) :
+    ∀ fs : List Fn, evalList env (constsOnly κ0) (flattenList taken fs) = evalList env (induced taken κ0) fs
   | [] => by simp [flattenList, evalList]
-  | f :: fs => by simp [flattenList, evalList, flatten_semantics env κ0 f, flattenList_semantics env κ0 fs]
+  | f :: fs => by simp [flattenList, evalList, flatten_semantics taken env κ0 f, flattenList_semantics taken env κ0 fs]
 end
 
 /-- implicit update functions: prefix `<variable>_`, arguments are the regulators -/
-theorem implicit_semantics (env : Nat → Bool) (κ0 : List Char → Bool) (varName : List Char) (regs : List Nat) :
-    eval env (constsOnly κ0) (explode (regs.map Fn.var) (varName ++ ['_']))
-      = induced κ0 varName (regs.map env) := by
+theorem implicit_semantics (taken : List (List Char)) (env : Nat → Bool) (κ0 : List Char → Bool) (varName : List Char)
+    (regs : List Nat) :
+    eval env (constsOnly κ0) (explode taken (regs.map Fn.var) (varName ++ ['_']))
+      = induced taken κ0 varName (regs.map env) := by
   rw [explode_semantics]
   have : evalList env (constsOnly κ0) (regs.map Fn.var) = regs.map env := by
     induction regs with
@@ -102,30 +103,157 @@ theorem explode_names_injective {n1 n2 : List Char} {b1 b2 : List Bool}
   have := split_last_underscore (bitsOf_no_underscore b1) (bitsOf_no_underscore b2) h
   exact ⟨this.1, bitsOf_inj this.2⟩
 
-/-- SURJECTIVITY: every instantiation of the uninterpreted symbols is induced by some valuation of the fresh
+/-! ### the renaming of constants that would clash with a variable name (repair D13) -/
+
+def us (k : Nat) : List Char := List.replicate k '_'
+
+theorem us_succ (k : Nat) (x : List Char) : x ++ us (k + 1) = (x ++ ['_']) ++ us k := by
+  simp [us, List.replicate_succ]
+
+/-- what `fresh` returns: the name with the least number of appended underscores that is not a variable name -/
+theorem fresh_spec (taken : List (List Char)) (x : List Char) :
+    ∃ k, fresh taken x = x ++ us k ∧ (∀ i, i < k → x ++ us i ∈ taken) ∧ x ++ us k ∉ taken := by
+  induction x using fresh.induct taken with
+  | case1 x h ih =>
+    obtain ⟨k, h1, h2, h3⟩ := ih
+    refine ⟨k + 1, ?_, ?_, ?_⟩
+    · rw [fresh, dif_pos h, h1, us_succ]
+    · intro i hi
+      cases i with
+      | zero => simpa [us] using h
+      | succ j => rw [us_succ]; exact h2 j (by omega)
+    · rw [us_succ]; exact h3
+  | case2 x h =>
+    refine ⟨0, ?_, ?_, ?_⟩
+    · rw [fresh, dif_neg h]; simp [us]
+    · intro i hi; omega
+    · simpa [us] using h
+
+theorem fresh_not_taken (taken : List (List Char)) (x : List Char) : fresh taken x ∉ taken := by
+  obtain ⟨k, h1, _, h3⟩ := fresh_spec taken x
+  rw [h1]; exact h3
+
+/-- a name that is no variable name is kept -/
+theorem fresh_id {taken : List (List Char)} {x : List Char} (h : x ∉ taken) : fresh taken x = x := by
+  rw [fresh, dif_neg h]
+
+theorem us_add (a b : Nat) : us (a + b) = us a ++ us b := by simp [us, List.replicate_append_replicate]
+
+theorem append_us_cancel (x y : List Char) (k : Nat) (h : x ++ us k = y ++ us k) : x = y :=
+  List.append_cancel_right h
+
+/-- a symbol of the input network: a zero-arity parameter is not named like a variable (the library's name space
+rule); symbols with arguments, and the implicit functions `<variable>_…`, are unrestricted -/
+def Sym (taken : List (List Char)) (n : List Char) (bs : List Bool) : Prop := bs = [] → n ∉ taken
+
+/-- generated constants of two different legitimate symbols never coincide, also after the renaming -/
+theorem fresh_names_injective (taken : List (List Char)) {n1 n2 : List Char} {b1 b2 : List Bool}
+    (s1 : Sym taken n1 b1) (s2 : Sym taken n2 b2)
+    (h : fresh taken (n1 ++ '_' :: bitsOf b1) = fresh taken (n2 ++ '_' :: bitsOf b2)) : n1 = n2 ∧ b1 = b2 := by
+  obtain ⟨k1, e1, t1, _⟩ := fresh_spec taken (n1 ++ '_' :: bitsOf b1)
+  obtain ⟨k2, e2, t2, _⟩ := fresh_spec taken (n2 ++ '_' :: bitsOf b2)
+  rw [e1, e2] at h
+  -- one of the two names is the other one followed by underscores
+  have key : ∀ (m1 m2 : List Char) (c1 c2 : List Bool) (j1 j2 : Nat), Sym taken m2 c2 →
+      (∀ i, i < j1 → (m1 ++ '_' :: bitsOf c1) ++ us i ∈ taken) → j2 ≤ j1 →
+      (m1 ++ '_' :: bitsOf c1) ++ us j1 = (m2 ++ '_' :: bitsOf c2) ++ us j2 → m1 = m2 ∧ c1 = c2 := by
+    intro m1 m2 c1 c2 j1 j2 hs ht hle hh
+    obtain ⟨d, rfl⟩ := Nat.exists_eq_add_of_le hle
+    rw [Nat.add_comm, us_add, ← List.append_assoc] at hh
+    have hx : (m1 ++ '_' :: bitsOf c1) ++ us d = m2 ++ '_' :: bitsOf c2 := append_us_cancel _ _ _ hh
+    cases d with
+    | zero =>
+      simp only [us, List.replicate_zero, List.append_nil] at hx
+      exact explode_names_injective hx
+    | succ d =>
+      -- the right-hand name ends in '_': it is a zero-arity symbol whose name is a variable name — excluded
+      exfalso
+      have hx' : ((m1 ++ '_' :: bitsOf c1) ++ us d) ++ '_' :: [] = m2 ++ '_' :: bitsOf c2 := by
+        rw [← hx]; simp [us, List.replicate_succ', List.append_assoc]
+      have hsplit := split_last_underscore (s1 := []) (s2 := bitsOf c2) (by simp) (bitsOf_no_underscore c2) hx'
+      have hc2 : c2 = [] := by
+        have := hsplit.2.symm
+        cases c2 with
+        | nil => rfl
+        | cons b bs => simp [bitsOf] at this
+      have hm2 : m2 = (m1 ++ '_' :: bitsOf c1) ++ us d := hsplit.1.symm
+      exact hs hc2 (by rw [hm2]; exact ht d (by omega))
+  rcases Nat.le_total k2 k1 with hle | hle
+  · exact key n1 n2 b1 b2 k1 k2 s2 t1 hle h
+  · have := key n2 n1 b2 b1 k2 k1 s1 t2 hle h.symm
+    exact ⟨this.1.symm, this.2.symm⟩
+
+/-- SURJECTIVITY: every instantiation of the (legitimate) uninterpreted symbols is induced by some valuation of the fresh
 constants.  Together with `flatten_semantics`: as the constants range over all Booleans, the flattened function
 ranges over exactly the instantiations of the input function — no spurious functions, none missing. -/
-theorem every_instantiation_induced (κ : List Char → List Bool → Bool) :
-    ∃ κ0 : List Char → Bool, ∀ n bs, induced κ0 n bs = κ n bs := by
+theorem every_instantiation_induced (taken : List (List Char)) (κ : List Char → List Bool → Bool) :
+    ∃ κ0 : List Char → Bool, ∀ n bs, Sym taken n bs → induced taken κ0 n bs = κ n bs := by
   classical
-  refine ⟨fun s => if h : ∃ p : List Char × List Bool, s = p.1 ++ '_' :: bitsOf p.2
+  refine ⟨fun s => if h : ∃ p : List Char × List Bool, Sym taken p.1 p.2 ∧ s = fresh taken (p.1 ++ '_' :: bitsOf p.2)
     then κ (Classical.choose h).1 (Classical.choose h).2 else false, ?_⟩
-  intro n bs
-  have hex : ∃ p : List Char × List Bool, n ++ '_' :: bitsOf bs = p.1 ++ '_' :: bitsOf p.2 := ⟨(n, bs), rfl⟩
+  intro n bs hsym
+  have hex : ∃ p : List Char × List Bool, Sym taken p.1 p.2 ∧
+      fresh taken (n ++ '_' :: bitsOf bs) = fresh taken (p.1 ++ '_' :: bitsOf p.2) := ⟨(n, bs), hsym, rfl⟩
   simp only [induced, dif_pos hex]
   have hs := Classical.choose_spec hex
-  obtain ⟨h1, h2⟩ := explode_names_injective hs
+  obtain ⟨h1, h2⟩ := fresh_names_injective taken hsym hs.1 hs.2
   rw [← h1, ← h2]
 
-theorem flatten_family (f : Fn) (env : Nat → Bool) :
-    (∀ κ0, ∃ κ, eval env (constsOnly κ0) (flatten f) = eval env κ f) ∧
-    (∀ κ, ∃ κ0, eval env (constsOnly κ0) (flatten f) = eval env κ f) := by
-  refine ⟨fun κ0 => ⟨induced κ0, flatten_semantics env κ0 f⟩, fun κ => ?_⟩
-  obtain ⟨κ0, h⟩ := every_instantiation_induced κ
+mutual
+/-- the zero-arity parameters of a function are not named like variables -/
+def SymsOK (taken : List (List Char)) : Fn → Prop
+  | .const _ => True
+  | .var _ => True
+  | .not f => SymsOK taken f
+  | .bin _ l r => SymsOK taken l ∧ SymsOK taken r
+  | .param n args => (args = [] → n ∉ taken) ∧ SymsOKList taken args
+def SymsOKList (taken : List (List Char)) : List Fn → Prop
+  | [] => True
+  | f :: fs => SymsOK taken f ∧ SymsOKList taken fs
+end
+
+theorem evalList_nil_iff (env : Nat → Bool) (κ : List Char → List Bool → Bool) (args : List Fn) :
+    evalList env κ args = [] ↔ args = [] := by
+  cases args <;> simp [evalList]
+
+mutual
+theorem eval_congr (taken : List (List Char)) (env : Nat → Bool) (κ1 κ2 : List Char → List Bool → Bool)
+    (h : ∀ n bs, Sym taken n bs → κ1 n bs = κ2 n bs) : ∀ f : Fn, SymsOK taken f → eval env κ1 f = eval env κ2 f
+  | .const b, _ => by simp [eval]
+  | .var i, _ => by simp [eval]
+  | .not f, hf => by simp [eval, eval_congr taken env κ1 κ2 h f hf]
+  | .bin o l r, hf => by simp [eval, eval_congr taken env κ1 κ2 h l hf.1, eval_congr taken env κ1 κ2 h r hf.2]
+  | .param n args, hf => by
+    simp only [eval, evalList_congr taken env κ1 κ2 h args hf.2]
+    apply h
+    intro hnil
+    exact hf.1 ((evalList_nil_iff env κ2 args).mp hnil)
+theorem evalList_congr (taken : List (List Char)) (env : Nat → Bool) (κ1 κ2 : List Char → List Bool → Bool)
+    (h : ∀ n bs, Sym taken n bs → κ1 n bs = κ2 n bs) : ∀ fs : List Fn, SymsOKList taken fs → evalList env κ1 fs = evalList env κ2 fs
+  | [], _ => by simp [evalList]
+  | f :: fs, hf => by simp [evalList, eval_congr taken env κ1 κ2 h f hf.1, evalList_congr taken env κ1 κ2 h fs hf.2]
+end
+
+/-- MAIN (family): for a function whose zero-arity parameters are not named like variables (always the case for a network
+the library accepted), the flattened function ranges over exactly the instantiations of the input function -/
+theorem flatten_family (taken : List (List Char)) (f : Fn) (hf : SymsOK taken f) (env : Nat → Bool) :
+    (∀ κ0, ∃ κ, eval env (constsOnly κ0) (flatten taken f) = eval env κ f) ∧
+    (∀ κ, ∃ κ0, eval env (constsOnly κ0) (flatten taken f) = eval env κ f) := by
+  refine ⟨fun κ0 => ⟨induced taken κ0, flatten_semantics taken env κ0 f⟩, fun κ => ?_⟩
+  obtain ⟨κ0, h⟩ := every_instantiation_induced taken κ
   refine ⟨κ0, ?_⟩
   rw [flatten_semantics]
-  have : induced κ0 = κ := by funext n bs; exact h n bs
-  rw [this]
+  exact eval_congr taken env _ _ h f hf
+
+/-- the same for an implicit update function (its symbol `<variable>` always has arguments: the regulators) -/
+theorem implicit_family (taken : List (List Char)) (varName : List Char) (regs : List Nat) (hr : regs ≠ []) (env : Nat → Bool) :
+    ∀ κ : List Bool → Bool, ∃ κ0, eval env (constsOnly κ0) (explode taken (regs.map Fn.var) (varName ++ ['_']))
+      = κ (regs.map env) := by
+  intro κ
+  obtain ⟨κ0, h⟩ := every_instantiation_induced taken (fun n bs => if n = varName then κ bs else false)
+  refine ⟨κ0, ?_⟩
+  rw [implicit_semantics, h varName (regs.map env) (by intro hnil; cases regs <;> simp_all)]
+  simp
 
 /-! fully specified functions are reproduced -/
 
@@ -138,21 +266,27 @@ def NoParams : Fn → Prop
   | .param _ _ => False
 end
 
-theorem flatten_specified : ∀ f : Fn, NoParams f → flatten f = f
+theorem flatten_specified (taken : List (List Char)) : ∀ f : Fn, NoParams f → flatten taken f = f
   | .const b, _ => by simp [flatten]
   | .var i, _ => by simp [flatten]
-  | .not f, h => by simp [flatten, flatten_specified f h]
-  | .bin o l r, h => by simp [flatten, flatten_specified l h.1, flatten_specified r h.2]
+  | .not f, h => by simp [flatten, flatten_specified taken f h]
+  | .bin o l r, h => by simp [flatten, flatten_specified taken l h.1, flatten_specified taken r h.2]
   | .param _ _, h => by cases h
 
 /-- variables with neither regulators nor a function remain free inputs; no other targets are introduced:
 the converter maps over the existing variables only -/
-theorem no_regulators_untouched (varName : List Char) (update : Option Fn) :
-    flattenVar varName [] update = update := by simp [flattenVar]
+theorem no_regulators_untouched (taken : List (List Char)) (varName : List Char) (update : Option Fn) :
+    flattenVar taken varName [] update = update := by simp [flattenVar]
 
-/-! Non-vacuity: the repaired defect D8, `f(g(b))` -/
-example : flatten (.param ['f'] [.param ['g'] [.var 1]]) =
-    explode [explode [.var 1] "g_".toList] "f_".toList := by
+/-- the generated constants are never named like a variable (so `add_parameter` cannot refuse them — the panic of D13) -/
+theorem generated_not_variable (taken : List (List Char)) (x : List Char) : fresh taken x ∉ taken :=
+  fresh_not_taken taken x
+
+/-! Non-vacuity: the repaired defect D8, `f(g(b))`, and D13, a variable named like a constant -/
+example : flatten [] (.param ['f'] [.param ['g'] [.var 1]]) =
+    explode [] [explode [] [.var 1] "g_".toList] "f_".toList := by
   simp [flatten, flattenList]
+example : fresh ["f_0".toList] "f_0".toList = "f_0_".toList := by
+  rw [fresh, dif_pos (by decide), fresh, dif_neg (by decide)]; rfl
 
 end Hctl.C19
